@@ -190,7 +190,8 @@ def run_property(prop, tier, seed, procs):
     native_tried = 0
     budget_open = 300 if tier == 'thorough' else 25
     budget_ok = 20 if tier == 'thorough' else 2
-    search_jobs = [(q, seed, budget_open if q in open_funcs else budget_ok) for q in targets if contracts.REG[q].gen is not None]
+    bounded_targets = [q for q, c_ in contracts.REG.items() if prop in c_.props and c_.bounded_flag and c_.gen is not None]
+    search_jobs = [(q, seed, budget_open if q in open_funcs else budget_ok) for q in targets + bounded_targets if contracts.REG[q].gen is not None]
     with ctx.Pool(min(procs, max(1, len(search_jobs)))) as pool:
         found = pool.map(_search_worker, search_jobs, chunksize=1)
     native_found = {}
@@ -351,6 +352,7 @@ def run_property(prop, tier, seed, procs):
         'undecided': [n for _, n, _ in undecided], 'unsupported': [q for q, _ in unsupported],
         'known_findings_hit': [k.get('what') for k in known_hits],
         'native_only_clauses': [{'function': q, 'clause': nm, 'status': 'bounded stand-in: evaluated on generated inputs only, not proved'} for q in targets for nm, _ in getattr(contracts.REG[q], 'native_ensures_l', [])],
+        'bounded_stand_ins': [{'function': q, 'status': 'contract evaluated on generated inputs only (assumed at call sites), not proved'} for q in bounded_targets],
         'native_differential_search': {'inputs_tried': native_tried, 'violations_found': len(native_found),
                                        'note': 'bounded stand-in / cross-check only: never counted as proved'},
         'samples': samples,
